@@ -855,8 +855,10 @@ func c07Gen(rng *rand.Rand) *metaCase {
 		// two include files that define the same name differently (and one name that only the first defines):
 		// each file reads its own definitions, whatever was parsed before it
 		feats["sibling-includes-define-the-same-name"] = true
-		p.Files.Include["sepdash"] = "##!> define sep [\\-_]\n##!> define onlydash DASH\nfoo{{sep}}bar\n"
-		p.Files.Include["sepblank"] = "##!> define sep \\s+\nbaz{{sep}}qux\nx{{onlydash}}y\n"
+		// (in half of the cases both files begin with the very same definition line)
+		common := core.Pick(rng, "", "##!> define common zz\n")
+		p.Files.Include["sepdash"] = common + "##!> define sep [\\-_]\n##!> define onlydash DASH\nfoo{{sep}}bar{{common}}\n"
+		p.Files.Include["sepblank"] = common + "##!> define sep \\s+\nbaz{{sep}}qux\nx{{onlydash}}y\n"
 		body = append(body, core.Pick(rng, "##!> include sepdash", "##!> include sepblank"), core.Pick(rng, "##!> include sepblank", "##!> include sepdash", "##!> include-except sepblank sepnone"))
 		p.Files.Exclude["sepnone"] = "notlisted\n"
 	}
@@ -893,7 +895,7 @@ func c07Gen(rng *rand.Rand) *metaCase {
 	ls := body
 	for i := range names {
 		at := rng.Intn(len(ls) + 1)
-		line := core.Pick(rng, "", "  ") + "##!> define " + names[i] + core.Pick(rng, " ", "  ") + vals[i]
+		line := core.Pick(rng, "", "  ") + "##!>" + core.Pick(rng, " ", " ", "", "\t") + "define" + core.Pick(rng, " ", " ", "\t", " \t") + names[i] + core.Pick(rng, " ", "  ", "\t") + vals[i]
 		ls = append(ls[:at], append([]string{line}, ls[at:]...)...)
 	}
 	// definition lines inside a block keep the block balanced, they are plain lines
